@@ -7,7 +7,7 @@ def run(ck):
                "proof valid) and 6 issuance scenarios (key sequences with repeats), proves the transcribed order of checks equivalent "
                "to the stated condition; each case is concretised several ways (foreign CA with the same name / another name / "
                "self-signed; proof invalid by signature, signer, difficulty, zero bits, expiry, window or subject; certificates issued by "
-               "RequestCertificate or directly by the CA) through the real pki.Server with real x509/ed25519/proof-of-work; the "
+               "RequestCertificate or directly by the CA, the latter also with a hash component that is not the key's and with further subject attributes) through the real pki.Server with real x509/ed25519/proof-of-work; the "
                "observations are read back into TLC and judged by RenewDecl / IssueDecl; non-trivial = every (case, variant)")
     variants = 6 if ck.thorough else 3
     r = ck.tlc("Pki", "MC_Pki_cases.cfg")
@@ -64,7 +64,7 @@ def run(ck):
                 nw = o["new"]
                 if nw["key"] != nw["pkey"]:
                     what.append("key-not-proof-key")
-                if not nw["bound"]:
+                if o["old"]["bound"] and not nw["bound"]:
                     what.append("token-not-bound-to-key")
                 if nw["ver"] != "v2" or not nw["chain"]:
                     what.append("not-a-client-ca-v2-certificate")
